@@ -510,7 +510,7 @@ func plans() []plan {
 func TestCheck(t *testing.T) {
 	rec = mon.Open("C10")
 	defer rec.Close()
-	rec.Note("rule", "a case is one history against the real Batcher in a synctest bubble: (lockstep) seeded Batch / sleep / Subscribe / cancel / Close sequences on a 1 ms grid with prompt subscribers, judged against the debounce reference including exact delivery instants; (stall) a never-reading subscriber with 52-70 events outstanding (past the 50-slot buffer) while further Batch / Subscribe / Close calls are made, resolved by cancelling or unleashing it; (directed) the delivery loop parked at fanout.send or a forwarder at fwd.exit while cancel / Close / Subscribe / Batch are issued. Non-trivial = at least one value was delivered to a subscriber; distinct = distinct step list.")
+	rec.Note("rule", "a case is one history against the real Batcher in a synctest bubble: (lockstep) seeded Batch / sleep / Subscribe / cancel / Close sequences on a 1 ms grid with prompt subscribers, judged against the debounce reference including exact delivery instants; (stall) a never-reading subscriber with 52-70 events outstanding (past the 50-slot buffer) while further Batch / Subscribe / Close calls are made, resolved by cancelling or unleashing it; (directed) the delivery loop parked at fanout.send or a forwarder at fwd.exit while cancel / Close / Subscribe / Batch are issued. Directed cases also park the queue loop at loop.fired / loop.peeked / exec.popped while the head key or another key is batched again. (subclose, real goroutines and clock) 2-5 staggered Subscribe calls race two overlapping Close calls: nobody panics, every call returns, a subscriber registered before Close was called finds its channel closed once Close has returned. (stallorder, real goroutines and clock) 60-90 keys fall due together, one subscriber reads promptly and one starts reading after 20 ms: both must receive one and the same sequence. Non-trivial = at least one value was delivered to a subscriber; distinct = distinct step list.")
 	rec.Note("require", []string{"park.fanout.send", "subscribe.with_ended_context", "reactive.batch_from_event_handler", "park.fwd.exit", "park.queue.loop.fired", "park.queue.exec.popped", "judged", "stall.fanout_blocked", "stall.resolved_by_cancel", "stall.resolved_by_unleash", "delivered", "closed_channels_seen", "close.overlapping_calls_checked", "subclose.rounds", "stallorder.rounds_with_equal_sequences"})
 	ps := plans()
 	rec.Planned(len(ps))
